@@ -279,7 +279,7 @@ pub fn check(s: &'static dyn Proto, c: &Case, st: &mut Stats, _k: &KnownFindings
 
 pub const BUDGET: Budget = Budget {
     quick: (200, 90, 36),
-    thorough: (300, 100, 40),
+    thorough: (1500, 500, 200),
     shrink: 60,
 };
 
